@@ -47,6 +47,8 @@ def run(ck):
     ck.check_theorems()
     from harness import splitarith
     splitarith.check_translation(ck)
+    from harness import predops
+    predops.check_translation(ck)
 
     rng = np.random.default_rng(ck.seed + 101)
     nfits = ck.n(8, 60)
